@@ -29,11 +29,15 @@ type vPartialWriter struct {
 	log     []byte
 	partial int
 	calls   int
+	// errOnFull: a call that accepts everything may still report the timeout
+	// (the deadline expired as the last byte went out; io.Writer allows it)
+	errOnFull bool
 }
 
 func (w *vPartialWriter) Write(b []byte) (int, error) {
 	w.calls++
 	k := len(b)
+	partialCall := w.partial > 0
 	if w.partial > 0 {
 		w.partial--
 		k = vInt("accept")
@@ -41,6 +45,9 @@ func (w *vPartialWriter) Write(b []byte) (int, error) {
 	}
 	w.log = append(w.log, b[:k]...)
 	if k < len(b) {
+		return k, vErrTimeout
+	}
+	if partialCall && w.errOnFull && len(b) > 0 && vBool("timeout_with_full_write") {
 		return k, vErrTimeout
 	}
 	return k, nil
